@@ -35,14 +35,17 @@ CHECKS = {
          "RawCopy extents, offsets and data at every RawCopy leave step of every recorded behaviour (substreams, non-zero offsets); checksums built then parsed; every single-bit corruption of covered region and digest must raise ChecksumError."),
  "C15": ("TLC trace validation against independent definitions of XOR (key cycled), bit rotation of groups, byte/bit reversal; compression codecs uninterpreted", "4.C15",
          "Exhaustive-by-grid keys and rotation amounts x groups (sampled in quick), swapped constructs of size 1..16, four stdlib codecs; built bytes and the inner construct's view on parse are compared by TLC with the definitions in Codecs.tla."),
+ "C16": ("TLC model checking of the lazy-object state machine (spec/Lazy.tla, MC_C16: all access histories, negative control) + TLC predicate C16History on recorded access histories against the recorded eager parse", "4.C16",
+         "Design level: every access history (any order, repetitions) to the bound over member lists mixing fixed, keyword-sized, length-prefixed and unsizable members: LazyEqualsEager, AccessIsInvisible, SameFinalPosition, CacheSound. Conformance: all permutations for <= 4 members and random histories with repetitions, by name / attribute / index / iteration / slice, performed on the real lazy objects with value and stream position recorded after every access; lazies read by later siblings during the surrounding parse compared with their eager twin."),
+ "C17": ("TLC model checking of Session.tla (pool sharing members, two threads, all interleavings at boundary granularity; memoising member as negative control) + TLC predicates C17Same / C17Entry / C17Offset / C17Frozen on recorded histories, forced schedules and entry points", "4.C17",
+         "Design level: Pure, Repeatable, Frozen over all interleavings of calls on a pool sharing members. Conformance: random call histories (parse/build/sizeof/compile, succeeding and failing) with every repetition compared and object-graph digests before/after each call; two-thread interleavings forced through the recording hook acting as a gate, 8-thread free-running stress; all entry points."),
  "C18": ("TLC replay through CAM.tla (clause C18.path at every failing leave step, C18.path-kept) + TLC predicate C18Trunc on truncation sessions", "4.C18",
          "Every failing recorded behaviour (all truncation offsets of canonical encodings of nested named structures, every member made unbuildable in turn, random inputs) is replayed by TLC: the path equals the operation prefix plus the Renamed names on the stack where the error was created and is kept while propagating; truncation at j names the members whose recorded extent contains j."),
+ "C20": ("TLC model checking of the container heap model (spec/Containers.tla, Hex.tla; MC_C20: equivalence laws, copy independence, hexundump o hexdump) + TLC replay (TraceC20) of operation histories executed on real containers with full three-view projections", "4.C20",
+         "Design level: all operation histories to the bound on heaps with public / private / method-shadowing keys and nested containers: Eq reflexive, symmetric, transitive, order- and private-insensitive; shallow copies independent at top level, deep copies and pickle round trips disjoint. Conformance: random histories (set / setattr / del / pop / clear / update / append / copy / deepcopy / pickle with every protocol / search) on real objects, after every step the whole object graph projected through attributes, keys and iteration with identities and equality results, replayed by TLC on the model; hexdump text compared character by character and read back."),
 }
 PENDING = {
- "C16": "check under construction in this round (Lazy.tla; DESIGN.md 4.C16)",
- "C17": "check under construction in this round (Session.tla; DESIGN.md 4.C17)",
  "C19": "check under construction in this round (Ksy.tla; DESIGN.md 4.C19)",
- "C20": "check under construction in this round (Containers.tla, Hex.tla; DESIGN.md 4.C20)",
 }
 def main():
     commits = subprocess.run(["git", "-C", "/repo", "log", "--format=%h %s"], capture_output=True, text=True).stdout.splitlines()
